@@ -252,7 +252,9 @@ class Reporter:
             json.dump(ev, f, indent=1, sort_keys=False)
 
         # vacuity floors: a run that explored less than intended is a harness failure
-        if floors:
+        # (a run that found an unlisted violation stops expanding violated branches, so it legitimately explores less:
+        # the floors guard only silent runs)
+        if floors and not new_keys:
             for name, floor in floors.items():
                 got = cov.get(name, self.tally.counts.get(name, len(self.tally.sets.get(name, ()))))
                 if got < floor:
